@@ -10,6 +10,7 @@ import GontainerModel.Lemmas.DepGraph
 import GontainerModel.Model.Output
 import GontainerModel.Lemmas.ParamFuel
 import GontainerModel.Lemmas.Rank
+import GontainerModel.Lemmas.ParamDeps
 namespace GM.C07
 open GM GM.Graph GM.Output
 
@@ -117,6 +118,26 @@ theorem param_eval_terminates_acyclic (p : Runtime.Prog) (hac : cyclic (buildGra
 theorem rank_le_nodes (o : Output) (a : Node) : rankOf (buildGraph o) a ≤ (buildGraph o).nodes.length := by
   unfold rankOf
   exact List.length_filter_le _ _
+
+/-- the hypothesis of the previous theorem holds for what the compiler produces: every parameter `compileParams` emits
+records the references the runtime follows (tokenisation finds the same references whatever the import table holds) -/
+theorem compiled_params_recorded (p : Runtime.Prog) (i : Input.Input) (st : Imports.St)
+    (hout : p.out.params = (Compile.compileParams i p.fns st).1) : Runtime.ParamDepsRecorded p := by
+  intro prm hprm
+  rw [hout] at hprm
+  exact Runtime.compiled_params_recorded p i st prm hprm
+
+/-- **an accepted container's parameter evaluation terminates**: for a program whose parameters are the compiler's output and
+whose dependency graph the cycle validator accepts, the recursion budget never decides an answer -/
+theorem param_eval_terminates (p : Runtime.Prog) (i : Input.Input) (st0 : Imports.St)
+    (hout : p.out.params = (Compile.compileParams i p.fns st0).1) (hac : cyclic (buildGraph p.out) = false)
+    (id : String) (st : Runtime.St) (f g : Nat)
+    (hf : 2 * (buildGraph p.out).nodes.length + 3 ≤ f) (hg : 2 * (buildGraph p.out).nodes.length + 3 ≤ g) :
+    Runtime.getParam f p st id = Runtime.getParam g p st id := by
+  apply param_eval_terminates_acyclic p hac (compiled_params_recorded p i st0 hout) id st f g
+  · have := rank_le_nodes p.out (nParam id); show 2 * rankOf (buildGraph p.out) (nParam id) + 3 ≤ f; omega
+  · have := rank_le_nodes p.out (nParam id); show 2 * rankOf (buildGraph p.out) (nParam id) + 3 ≤ g; omega
+
 
 -- non-vacuity: a two-level chain of parameters is ranked
 def demoParams : Runtime.Prog :=
